@@ -1261,7 +1261,7 @@ class UTPM(Ring, RawAlgorithmsMixIn):
         y = UTPM(numpy.zeros((D,P), dtype=x.data.dtype))
         y.data[0,:] = 1.
         for i in range(0, x.size):
-            y *= x[i]
+            y *= x[numpy.unravel_index(i, x.shape)]
         return y
 
     @classmethod
@@ -1273,20 +1273,20 @@ class UTPM(Ring, RawAlgorithmsMixIn):
         else:
             xbar, = out
 
-        # forward and store intermediates
+        # forward and store intermediates (elements in C order, any rank)
+        idx = [numpy.unravel_index(i, x.shape) for i in range(x.size)]
         z = x.zeros_like()
         zbar = x.zeros_like()
-        z.data[0,:, 0] = 1.
-        z[0] = x[0]
+        z[idx[0]] = x[idx[0]]
         for i in range(1, x.size):
-            z[i] = z[i-1]*x[i]
+            z[idx[i]] = z[idx[i-1]]*x[idx[i]]
 
         # reverse
-        zbar[x.size-1] = ybar
+        zbar[idx[x.size-1]] = ybar
         for i in range(x.size-1, 0, -1):
-            zbar[i-1] += zbar[i]*x[i]
-            xbar[i]   += zbar[i]*z[i-1]
-        xbar[0] += zbar[0]
+            zbar[idx[i-1]] += zbar[idx[i]]*x[idx[i]]
+            xbar[idx[i]]   += zbar[idx[i]]*z[idx[i-1]]
+        xbar[idx[0]] += zbar[idx[0]]
         return xbar
 
         # z = y.copy()
